@@ -60,6 +60,8 @@ pub struct Machine<'p> {
     pub touched: Option<usize>,
     /// the program ended by running off the end of the file's last method
     pub ran_off_end: bool,
+    /// total number of array elements allocated so far
+    pub heap_cells: u64,
 }
 
 impl<'p> Machine<'p> {
@@ -125,6 +127,7 @@ impl<'p> Machine<'p> {
             dispatch_hist: HashMap::new(),
             touched: None,
             ran_off_end: false,
+            heap_cells: 0,
         })
     }
 
@@ -286,8 +289,11 @@ impl<'p> Machine<'p> {
                     V::Int(i) if i >= 0 => i as usize,
                     other => return Err(format!("array size {:?}", other)),
                 };
-                if n > (1 << 24) {
-                    self.status = Status::Ambiguous("array too large for the reference machine".into());
+                // protect the harness (and the real VM that is run on the same program): large or
+                // many arrays are not judged
+                self.heap_cells += n as u64;
+                if n > (1 << 20) || self.heap_cells > (1 << 22) {
+                    self.status = Status::Ambiguous("arrays too large for the reference machine".into());
                     return Ok(());
                 }
                 self.heap.push(HObj::Array(vec![init; n]));
